@@ -215,7 +215,7 @@ class AProg(k2.Prog):
 
     def rust_fn(self):
         sched = [[g + self.base for g in batch] for batch in self.schedule]
-        inv = "%s! { %s }" % (self.name, self.macro_input())
+        inv = self.invocation()
         if self.is_spawn() and not self.no_runtime():
             run = "drive_tokio(move || %s, vec![%s])" % (inv, ", ".join("vec![%s]" % ", ".join(map(str, b)) for b in sched))
         else:
@@ -434,6 +434,8 @@ def body(ctx, kinds=("a1t0s0", "a1t1s0", "a1t0s1", "a1t1s1"), n=None, profiles=N
         p.base = 1000 * (i + 1)
         if i % 3 == 1 and not p.pid.endswith("_2"):
             p.pid += "_2"          # executed twice (see MAIN_ASYNC)
+        if i % 4 == 3 and not hasattr(p, "forwarded"):
+            p.forwarded = True     # invoked through a forwarding `macro_rules!` wrapper (k2.PRELUDE_SYNC)
     # reference: the sync counterpart's semantics on the same structure
     cases = [(p.pid, p.kind, p.macro_input(), "k2async") for p in progs]
     reals = k1.run_real(cases)
@@ -459,7 +461,7 @@ def body(ctx, kinds=("a1t0s0", "a1t1s0", "a1t0s1", "a1t1s1"), n=None, profiles=N
         line = o.split("\t", 1)[1] if "\t" in o else o
         if line != (ref_at[p.pid] if p.is_try() else spec[p.pid]):
             ctx.broken.append(("refinement on a concrete async program (Sem(gen p) under the canonical schedule vs reference)",
-                               {"program": "%s! { %s }" % (p.name, p.macro_input()), "model_code_semantics": line[:600],
+                               {"program": p.invocation(), "model_code_semantics": line[:600],
                                 "reference": (ref_at[p.pid] if p.is_try() else spec[p.pid])[:600]}))
             break
     ctx.out.coverage["async_model_runs_compared"] = ctx.out.coverage.get("async_model_runs_compared", 0) + len(cov)
@@ -510,7 +512,7 @@ def body(ctx, kinds=("a1t0s0", "a1t1s0", "a1t0s1", "a1t1s1"), n=None, profiles=N
                 # the implementation satisfies the property-level oracle but not the poll-level model: the model (or the
                 # assumption about join!/await it encodes) does not describe this execution
                 ctx.broken.append(("poll-level model vs the real future on the deterministic executor",
-                                   {"program": "%s! { %s }" % (p.name, p.macro_input()), "gate_schedule": p.schedule, "difference": d,
+                                   {"program": p.invocation(), "gate_schedule": p.schedule, "difference": d,
                                     "observed": rl[:800], "model": predicted[p.pid][:800]}))
             elif d:
                 problems.append("poll-level: " + d)
@@ -518,7 +520,7 @@ def body(ctx, kinds=("a1t0s0", "a1t1s0", "a1t0s1", "a1t1s1"), n=None, profiles=N
         ctx.shapes.add(p.kind + re.sub(r"\d+", "0", p.macro_input()))
         if problems:
             ctx.out.violation({"macro": p.name, "macro_kind": p.kind, "source": p.macro_input(),
-                               "program": "%s! { %s }" % (p.name, p.macro_input()), "gate_schedule": p.schedule,
+                               "program": p.invocation(), "gate_schedule": p.schedule,
                                "observed": rl[:1500], "reference_semantics_sync_counterpart": spec[p.pid][:800], "problems": problems},
                               found_input=True, signature=None)
     ctx.out.coverage["samples"].append({"program": "%s! { %s }" % (progs[0].name, progs[0].macro_input()),
@@ -566,7 +568,7 @@ def body_panics(ctx, kinds=("a1t0s0", "a1t1s0", "a1t0s1", "a1t1s1"), n=None):
         okp = res.startswith("panic") and (p.is_spawn() or ("user%d" % (p.victim + p.base)) in res or "user" in res)
         if not okp:
             ctx.out.violation({"macro": p.name, "macro_kind": p.kind, "source": p.macro_input(),
-                               "program": "%s! { %s }" % (p.name, p.macro_input()), "gate_schedule": p.schedule,
+                               "program": p.invocation(), "gate_schedule": p.schedule,
                                "panicking_callback": p.victim, "observed": rl[:1200],
                                "what": "a user callback panicked but the macro's future did not panic when driven "
                                        "(completed, hung, or stayed pending)"}, found_input=True, signature=None)
